@@ -60,6 +60,12 @@ def run_case(spec, ctx):
         th0 = float(arch.theta_from_tau(fam, tau))
         data = samplers.SAMPLERS[fam](th0, 3000, rng)
         model = biv.cls(fam)()
+        if spec['seed'] % 2:
+            # the instance was fitted before, on data with another dependence, and used
+            other = samplers.gaussian(float(rng.uniform(0.1, 0.9)), 500, rng)
+            if ctx.call(model.fit, other)[0]:
+                ctx.call(model.sample, 3)
+            where['refitted'] = True
         ok, exc = ctx.call(model.fit, data)
         if not ok:
             ctx.violation('sample.fit', 'C09:fit-' + exc_mech(exc), dict(exc_detail(exc), **where))
@@ -75,6 +81,10 @@ def run_case(spec, ctx):
     ref = arch.Arch(fam, theta)
     tau_model = float(ref.tau())
     where['theta'] = theta
+    # "the model's tau": the attribute and the parameter must describe the same copula
+    ctx.check(model.tau is not None and abs(model.tau - tau_model) <= (5e-3 if fam == 'frank' else 1e-9),
+              'sample.model-tau-is-tau-of-theta', 'C09:model-tau-and-theta-disagree',
+              lambda: dict(where, model_tau=model.tau, tau_of_theta=tau_model))
 
     if spec['mode'] == 'tiny-batches':
         return _tiny(spec, ctx, model, fam, theta, where, bb)
